@@ -226,8 +226,26 @@ def keyfn(rec):
     return "filter:%s:%s:%s" % (rec.get("checker"), code, opn)
 
 
+def extra(tier, rng, workdir):
+    """support for the assumption that Subscribe* / Unsubscribe* / IsRelevant are atomic under the subscription lock
+    (the theorems are about sequential histories): a tx that matches every subscription set of a rotation must be
+    relevant at every instant"""
+    n = 20000 if tier == "quick" else 400000
+    cases = [{"cfg": {}, "ops": [["rotate_race", n]]} for _ in range(4)]
+    res, _ = vlib.run_harness("filter", cases, workdir, tag="rotate")
+    failures = []
+    for c, r in zip(cases, res):
+        if list(r[0][:1]) != [0] or r[0][1] != 0:
+            failures.append({"suite": "filter-race", "checker": "c08", "step": 0, "expected": [853], "observed": list(r[0]), "cfg": {},
+                             "ops": c["ops"], "trace": r,
+                             "what": "IsRelevant said 'not relevant' %s times for a tx that matches every subscription set of the concurrent rotation" % r[0][1:2]})
+            break
+    return {"failures": failures, "evaluations": len(cases), "coverage": {"rotation_race_isrelevant_calls": n * len(cases)}}
+
+
 SPEC = {
     "pid": "C08",
+    "extra": extra,
     "props_file": "props/C08.v",
     "suites": suites,
     "keyfn": keyfn,
